@@ -70,7 +70,7 @@ class ThreadWorld(World):
     @classmethod
     def header(cls, rng, tier, prop):
         return {"n_ops": rng.randint(1, 3), "key_seeds": [Hbytes("tkey", rng.getrandbits(64), i).hex() for i in range(3)],
-                "pool_seed": rng.getrandbits(32), "encoding": rng.choice(["utf-8", "ascii", "latin-1"])}
+                "pool_seed": rng.getrandbits(32), "encoding": rng.choice(["utf-8", "ascii", "latin-1"]), "target": prop}
 
     def __init__(self, run, header):
         super().__init__(run, header)
@@ -144,7 +144,15 @@ class ThreadWorld(World):
         with self.out:
             Eu = S.wrap_as_signable(unsorted)
             S.sign_signable(Eu, keys.priv[0])
-        P = self.pool = {"pa": pa, "pb": pb, "Gb": Gb, "unsorted": unsorted, "Eu": Eu, "k12": [keys.pub[1], keys.pub[2]], "kdup": [keys.pub[0], keys.pub[1], keys.pub[0]],
+        # a role file with very many authorised signers, nearly all of whose entries are junk (bounded caches overflow here)
+        Ebig = copy.deepcopy(Ea)
+        kbig = []
+        for j in range(rng.choice([130, 260, 520, 1030])):
+            hk = "%064x" % rng.getrandbits(256)
+            kbig.append(hk)
+            Ebig["signatures"][hk] = {"signature": "%0128x" % rng.getrandbits(512)}
+        kbig[len(kbig) // 2:len(kbig) // 2] = [keys.pub[0], keys.pub[1]]
+        P = self.pool = {"Ebig": Ebig, "kbig": kbig, "pa": pa, "pb": pb, "Gb": Gb, "unsorted": unsorted, "Eu": Eu, "k12": [keys.pub[1], keys.pub[2]], "kdup": [keys.pub[0], keys.pub[1], keys.pub[0]],
                          "k10": [keys.pub[1], keys.pub[0]], "k21": [keys.pub[2], keys.pub[1]], "Ea": Ea, "Eb": Eb, "Ex": Ex, "Ec": Ec, "Ej": Ej, "r1": r1, "r2": r2, "r2bad": r2bad,
                          "km": km, "G": G, "k01": [keys.pub[0], keys.pub[1]], "k0": [keys.pub[0]], "k2": [keys.pub[2]],
                          "k012": list(keys.pub), "dels": r1["signed"]["delegations"]}
@@ -176,6 +184,7 @@ class ThreadWorld(World):
             ("build_root", ("k10", 2, "k0"), {}),
             ("canonserialize", ("unsorted",), {}), ("canonserialize", ("unsorted",), {}), ("canonserialize", ("r2",), {}), ("canonserialize", ("km",), {}),
             ("sign_private", ("unsorted", 1), {}), ("verify_signable", ("Eu", "k0", 1), {}),
+            ("verify_signable", ("Ebig", "kbig", 2), {}), ("verify_signable", ("Ebig", "kbig", 3), {}), ("verify_signable", ("Ebig", "k01", 2), {}),
             ("sign_repo", ("noarch/repodata.json", 0), {}), ("sign_repo", ("linux-64/repodata.json", 0), {}),
             ("sign_repo", ("noarch/repodata.json", 1), {}), ("sign_repo", ("linux-64/repodata.json", 2), {}),
         ]
@@ -255,9 +264,18 @@ class ThreadWorld(World):
         # likely to be on several threads' stacks at once
         families = {"storage": ("sign_repo",), "gpg": ("verify_gpg_signature", "verify_root"), "builder": ("build_root", "checkformat_list_of_hex_keys"),
                     "canon": ("canonserialize", "sign_private", "wrap_as_signable"),
-                    "tally": ("verify_signable",), "deleg": ("verify_delegation",), "sign": ("sign_private", "wrap_as_signable", "canonserialize")}
+                    "tally": ("verify_signable",), "manykeys": ("verify_signable", "verify_signature"), "deleg": ("verify_delegation",), "sign": ("sign_private", "wrap_as_signable", "canonserialize")}
         theme = rng.choice(sorted(families)) if rng.random() < 0.5 else None
+        big = [i for i, c in enumerate(self.catalogue) if c[1] and c[1][0] == "Ebig"]
+        # the check of a property spends more of its runs on the code that property is about
+        favoured = {"C10": ("gpg",), "C03": ("gpg",), "C04": ("gpg",), "C01": ("tally", "gpg"), "C02": ("tally",), "C09": ("sign", "tally"), "C07": ("canon",),
+                    "C05": ("deleg",), "C06": ("deleg", "tally"), "C16": ("builder",), "C08": ("storage",), "C11": ("storage", "deleg"),
+                    "C18": ("storage",), "C12": ("manykeys", "gpg", "canon", "tally"), "C13": ("manykeys", "tally")}.get(self.h.get("target"))
+        if favoured and rng.random() < 0.5:
+            theme = rng.choice(favoured)
         themed = [i for i, c in enumerate(self.catalogue) if theme and c[0] in families[theme]]
+        if theme == "manykeys":
+            themed = big * 3 + [i for i in themed if i not in big]
         # related calls are placed next to each other on purpose
         plans = []
         for _ in range(nthreads):
@@ -265,12 +283,21 @@ class ThreadWorld(World):
             plan = []
             while len(plan) < n:
                 ci = rng.choice(themed) if themed and rng.random() < 0.75 else rng.randrange(nc)
+                if ci in big and theme != "manykeys" and rng.random() < 0.8:
+                    continue                        # the very long calls are mostly kept to their own theme
                 plan.append(ci)
                 if rng.random() < 0.3:
                     plan.append(ci)
             plans.append(plan[:n + 2])
-        return {"op": "threads", "plans": plans, "sched_seed": rng.getrandbits(32),
-                "p": rng.choice([0.02, 0.1, 0.3, 0.6]), "opcodes": False}
+        op = {"op": "threads", "plans": plans, "sched_seed": rng.getrandbits(32),
+              "p": rng.choice([0.02, 0.1, 0.3, 0.6]), "opcodes": False}
+        if nthreads > 1 and rng.random() < 0.4:
+            # long pauses: a caller is descheduled at one of its own pre-emption points for a long time (the classic way to open
+            # a check-then-act window) while the others run on with few switches
+            op["parks"] = [[rng.randrange(nthreads), rng.randint(1, rng.choice([60, 400, 3000])), rng.choice([300, 5000, 20000, 10**9])]
+                           for _ in range(rng.randint(1, 5))]
+            op["p"] = rng.choice([0.0, 0.01, 0.05])
+        return op
 
     def apply(self, op):
         run, lib = self.run, self.lib
@@ -284,7 +311,33 @@ class ThreadWorld(World):
         exp = [list(x) for x in explicit] if explicit is not None else None
         pos = [0]
 
+        parks = {}
+        for t, k, d in op.get("parks", []):
+            parks.setdefault(t, {})[k] = d
+        own = {}              # thread -> number of its own pre-emption points so far
+        parked = {}           # thread -> global point until which it stays parked
+
         def decide(point, me, runnable):
+            if exp is None and parks:
+                gp = abs(point)
+                for t in [t for t in parked if parked[t] <= gp]:
+                    del parked[t]
+                awake = [t for t in runnable if t not in parked] or list(runnable)
+                if point > 0 and me >= 0:
+                    own[me] = own.get(me, 0) + 1
+                    pk = parks.get(me, {}).get(own[me])
+                    if pk and len(awake) > 1:
+                        parked[me] = gp + pk
+                        run.probe("long_pause")
+                        others = [t for t in awake if t != me]
+                        return others[srng.randrange(len(others))]
+                if point < 0 or me not in awake:
+                    return awake[srng.randrange(len(awake))]
+                if srng.random() < p:
+                    others = [t for t in awake if t != me]
+                    if others:
+                        return others[srng.randrange(len(others))]
+                return me
             if exp is not None:
                 # explicit recorded schedule, consumed in order: a yield switches only at its recorded point,
                 # a finish (point < 0) always consumes the next entry
